@@ -160,6 +160,30 @@ def plan_c04(schema, rm, mi, desc, lines, meta, res, cap=6, seeds=(0x10,), const
         res.samples.append({"message": desc, "image": img.hex(), "expectations(req+1,after_move,after_stay,after_skip,result,width)": toks[:200]})
 
 
+def plan_dump_kinds(schema, rm, mi, desc, lines, meta, res, cap=8, modes=walk.MODES, flags="", nvalues=15):
+    """every scalar leaf sees every boundary bit pattern of its primitive (incl. NaN payloads, extremes)"""
+    gs, dl = adaptive_bounds(rm, cap)
+    ex = walk.Expect(schema, rm)
+    res.counters["shapes"] = res.counters.get("shapes", 0) + 1
+    for shape in values.size_vectors(rm.level, gs, dl):
+        for j in range(nvalues):
+            inst = values.fill_boundary(rm.level, shape, j, values.ByteGen(0x21 + j))
+            img, placed = codec.encode(schema, rm, inst, fill=0xEE)
+            hv = codec.header_values(schema, rm, placed)
+            back, _ = codec.decode(schema, rm, img)
+            if back != inst:
+                res.errors.append(("model-selfcheck", "decode(encode(x)) != x for %s" % rm.name))
+            for mode in modes:
+                exp = walk.filter_dump(ex.dump(placed, inst, mode, hv), flags)
+                cid = "k%d" % len(meta)
+                lines.append("D %s %d %s %s %d %s" % (cid, mi, mode, img.hex() if img else "-", exp.count("\n"), flags or "-"))
+                lines.append(exp.rstrip("\n"))
+                meta[cid] = {"message": rm.name, "desc": desc, "mode": mode, "shape": values.shape_str(shape), "seed": j,
+                             "image": img.hex()}
+                res.counters["values"] = res.counters.get("values", 0) + exp.count("=")
+            res.distinct.add((desc, values.shape_str(shape), j))
+
+
 def choice_strings(maxlen):
     out = []
     for n in range(1, maxlen + 1):
@@ -229,9 +253,9 @@ def report_pipeline(rep, builts, total, prefix, sig_fn=default_sig, accept_rejec
         case["msg_text"] = detail[:4000]
         case["msg"] = "%s [%s %s %s] %s" % (meta.get("desc"), meta.get("mode"), meta.get("shape"), meta.get("cell"), detail[:500])
         rep.violation(sig_fn(prefix, detail, meta), case)
-    rep.set("schemas", len(builts))
-    rep.set("programs", len(builts))
+    rep.add("schemas", len(builts))
+    rep.add("programs", len(builts))
     for k, v in total.counters.items():
-        rep.set(k, v)
+        rep.add(k, v)
     for s in total.samples:
         rep.sample(s)
